@@ -85,9 +85,35 @@ theorem C11_fv_list : C11_fv_list_stmt := mem_freeVars
 /-! ## Pending (T2): stated, not yet claimed -/
 
 /-- The substitution lemma: opening commutes with opening. -/
-def C11_open_open_stmt : Prop :=
+def C11_open_open_unrestricted : Prop :=
   ∀ (t u v : Tm) (i j : Nat), i ≤ j →
     openT (openT t i u 0) j v 0 = openT (openT t (j+1) v 0) i (openT u j v 0) 0
+
+/-- `C11_open_open_unrestricted` is **false as stated** (left pending, never claimed): `v` lives in the
+context from which both variables have been removed, so before it is substituted for `j+1` in `t`
+— where variable `i` is still bound — it must be lifted over `i`.  Counterexample: `t = var 1`,
+`i = j = 0`, `u = 5`, `v = var 0`: the left side is `var 0`, the right side `5`. -/
+def C11_open_open_refuted_stmt : Prop := ¬ C11_open_open_unrestricted
+theorem C11_open_open_refuted : C11_open_open_refuted_stmt := by
+  intro h
+  have := h (.var 0 1) (.lit 5) (.var 0 0) 0 0 (Nat.le_refl _)
+  revert this
+  decide
+
+/-- The substitution lemma (corrected): opening commutes with opening, the second substituted term
+being lifted over the first opened variable. -/
+def C11_open_open_fixed_stmt : Prop :=
+  ∀ (t u v : Tm) (i j : Nat), i ≤ j →
+    openT (openT t i u 0) j v 0 = openT (openT t (j+1) (ushift i 1 v) 0) i (openT u j v 0) 0
+theorem C11_open_open_fixed : C11_open_open_fixed_stmt := open_open
+
+/-- The same under `n` binders (the form the induction needs: both substituted terms are lifted by
+the depth at the point of substitution). -/
+def C11_open_open_depth_stmt : Prop :=
+  ∀ (t u v : Tm) (i j n : Nat), i ≤ j →
+    openT (openT t (i + n) u n) (j + n) v n =
+      openT (openT t (j + n + 1) (ushift i 1 v) n) (i + n) (openT u j v 0) n
+theorem C11_open_open_depth : C11_open_open_depth_stmt := open_open_gen
 
 /-! ## Non-vacuity: concrete non-trivial instances of the hypotheses -/
 
@@ -101,3 +127,45 @@ example : C11_ex1.holeFree = true ∧ sshift 0 (-1) C11_ex1 = none ∧ freeAt C1
 def C11_ex2 : Tm := .letg (.cons 0 .int (.var 1 3) (.cons 1 .int (.var 0 1) .nil)) (.var 0 0)
 example : C11_ex2.holeFree = true ∧ freeAt C11_ex2 0 = false ∧
     sshift 0 (-1) C11_ex2 = some (openT C11_ex2 0 (.lit 5) 0) := by decide
+
+/-! ## More of the substitution theory (T2) -/
+
+/-- Lifting commutes with lifting at a lower cutoff. -/
+def C11_ushift_comm_stmt : Prop :=
+  ∀ (t : Tm) (c d a b : Nat), c ≤ d →
+    ushift c a (ushift d b t) = ushift (d + a) b (ushift c a t)
+theorem C11_ushift_comm : C11_ushift_comm_stmt := ushift_comm
+
+/-- Opening commutes with lifting above the opened index. -/
+def C11_open_ushift_comm_unrestricted : Prop :=
+  ∀ (t u : Tm) (i c a s : Nat), i ≤ c →
+    ushift c a (openT t i u s) = openT (ushift (c + 1) a t) i (ushift (c - s) a u) s
+
+/-- `C11_open_ushift_comm_unrestricted` is **false as stated** (left pending, never claimed), because of
+holes: an unresolved hole with shift `k = i = c` is lifted by `ushift c` but not by `ushift (c+1)`,
+and `openT` leaves it alone.  Counterexample: `t = hole 0 0`, `i = c = s = 0`, `a = 1`: the left
+side is `hole 0 1`, the right side `hole 0 0`. -/
+def C11_open_ushift_comm_refuted_stmt : Prop := ¬ C11_open_ushift_comm_unrestricted
+theorem C11_open_ushift_comm_refuted : C11_open_ushift_comm_refuted_stmt := by
+  intro h
+  have := h (.hole 0 0) (.lit 5) 0 0 1 0 (Nat.le_refl _)
+  revert this
+  decide
+
+/-- Opening commutes with lifting above the opened index (corrected: `t` hole-free — the domain of
+C11; `u` is arbitrary). -/
+def C11_open_ushift_comm_fixed_stmt : Prop :=
+  ∀ (t u : Tm) (i c a s : Nat), t.holeFree = true → i ≤ c →
+    ushift c a (openT t i u s) = openT (ushift (c + 1) a t) i (ushift (c - s) a u) s
+theorem C11_open_ushift_comm_fixed : C11_open_ushift_comm_fixed_stmt := open_ushift_high
+
+/-- Opening commutes with lifting below the opened index (every term, holes included). -/
+def C11_open_ushift_low_stmt : Prop :=
+  ∀ (t u : Tm) (i c a s : Nat), c ≤ i → c ≤ s →
+    ushift c a (openT t i u s) = openT (ushift c a t) (i + a) u (s + a)
+theorem C11_open_ushift_low : C11_open_ushift_low_stmt := open_ushift_low
+
+/-- Two lifts whose ranges touch merge into one. -/
+def C11_ushift_merge_stmt : Prop :=
+  ∀ (t : Tm) (c d a b : Nat), d ≤ c → c ≤ d + b → ushift c a (ushift d b t) = ushift d (a + b) t
+theorem C11_ushift_merge : C11_ushift_merge_stmt := ushift_ushift_mid
